@@ -5,6 +5,7 @@ import (
 	"regexp"
 	"sort"
 	"strings"
+	"sync/atomic"
 	"time"
 
 	"golang.org/x/tools/go/ssa"
@@ -19,6 +20,20 @@ type decision struct {
 	tried  []int64 // concretize: values already explored (excluded)
 	more   bool    // concretize: more values may exist
 	n      int     // choose: number of alternatives
+}
+
+type obsRec struct {
+	label string
+	val   *Str
+}
+
+// ValSample is a completed path with a concrete input vector and what the
+// executor predicts the native run will observe.
+type ValSample struct {
+	Inputs  map[string]interface{}
+	Asserts []string
+	Obs     []string
+	Path    int
 }
 
 // InputVar records a harness input for replay.
@@ -98,6 +113,11 @@ type Explorer struct {
 	pathStart    time.Time
 	frozen       int
 	donate       func()
+	assertLog    []string // labels of vAssert calls on the current path, in order
+	obs          []obsRec // vObserve records on the current path
+	ValSamples   []*ValSample
+	ValWant      int // how many validation samples to collect
+	valCounter   *int64
 	ForkSites    map[string]int
 	curExec      *Exec
 	Params       map[string]int
@@ -165,6 +185,8 @@ func (x *Explorer) runOne(fn *ssa.Function) {
 	x.entangled = map[int]bool{}
 	x.inputs = nil
 	x.reached = map[string]bool{}
+	x.assertLog = nil
+	x.obs = nil
 	x.tainted = false
 	x.concVarN = 0
 	ex := &Exec{P: x.Prog, B: x.B, X: x, globals: map[*ssa.Global]*Object{}, ghost: map[string]interface{}{}}
@@ -202,6 +224,7 @@ func (x *Explorer) runOne(fn *ssa.Function) {
 	ex.call(nil, &Func{Fn: fn}, nil, nil)
 	ex.settle()
 	x.Completed++
+	x.maybeSample()
 	for k := range x.reached {
 		x.ReachedAll[k]++
 	}
@@ -575,8 +598,48 @@ func (x *Explorer) modelInputs(model map[int]uint64) map[string]interface{} {
 }
 
 // Assert checks that c holds on every input of the current path.
+// maybeSample keeps a few completed paths (spread over the exploration) as validation vectors.
+func (x *Explorer) maybeSample() {
+	if x.ValWant == 0 || len(x.ValSamples) >= x.ValWant {
+		return
+	}
+	n := x.Completed
+	if !(n == 1 || n == 7 || n == 50 || n%997 == 0) {
+		return
+	}
+	if x.valCounter != nil && atomic.AddInt64(x.valCounter, 1) > int64(2*x.ValWant) {
+		return
+	}
+	var want []*Term
+	want = append(want, x.allInputTerms()...)
+	for _, o := range x.obs {
+		want = append(want, o.val.B...)
+	}
+	r, model := x.Solver.Check(x.pc, want)
+	if r != Sat {
+		return
+	}
+	if model == nil {
+		model = map[int]uint64{}
+	}
+	vs := &ValSample{Inputs: x.modelInputs(model), Asserts: append([]string(nil), x.assertLog...), Path: x.Paths}
+	for _, o := range x.obs {
+		bs := make([]byte, len(o.val.B))
+		for i, t := range o.val.B {
+			if t.Op == OConst {
+				bs[i] = byte(t.Val)
+			} else {
+				bs[i] = byte(model[t.ID])
+			}
+		}
+		vs.Obs = append(vs.Obs, fmt.Sprintf("%s=%x", o.label, bs))
+	}
+	x.ValSamples = append(x.ValSamples, vs)
+}
+
 func (x *Explorer) Assert(ex *Exec, c *Term, label string, fr *frame) {
 	x.AssertSeen[label]++
+	x.assertLog = append(x.assertLog, label)
 	if c.Op == OConst && c.Val == 1 {
 		return
 	}
